@@ -142,3 +142,11 @@ PROPS["C19"] = {
     "assumptions": ["frame sizes, inlining and allocator behaviour are the compiler's: the theorem bounds call depth, the child-process runs tie depth to bytes on an 8 MiB stack",
                     "walk, Writer, Builder and build use no recursion (explicit stacks and loops; by inspection of the source, not modelled)"],
 }
+
+PROPS["C02"] = {
+    "deps": ["Proofs/DenoteFinal.vo"],
+    "props": "Props/C02.v",
+    "suites": [("reader", 1200, 30000), ("hist", 600, 12000)],
+    "owner": lambda name: name.startswith("C02.") or name in ("C10.errors_are_classified", "C10.built_graph_is_simple"),
+    "assumptions": ["kinds outside C06's known class (the builder panics on them)"],
+}
